@@ -82,7 +82,7 @@ func (t *Ty) Comparable() bool {
 
 // Wrap applies every constructor of the alphabet to t.
 func Wrap(t *Ty) []*Ty {
-	out := []*Ty{P(t), S(t), A(2, t), M(B("string"), t), St(F("F", t))}
+	out := []*Ty{P(t), S(t), A(2, t), M(B("string"), t), St(F("F", t)), St(F("F", t), F("G", t))}
 	if t.Comparable() {
 		out = append(out, M(t, B("string")))
 	}
